@@ -25,6 +25,7 @@ except Exception:  # pragma: no cover
 SASL_LISTS = [b"PLAIN", b"LOGIN PLAIN", b"OAUTHBEARER X-UNKNOWN", b"SCRAM-SHA-1 GSSAPI", b"", None,
               b"PLAIN LOGIN OAUTHBEARER", b"DIGEST-MD5 PLAIN", b"XOAUTHBEARER PLAIN-CLIENTTOKEN X-LOGIN"]
 BEHAV = ["OK", "NO", "BYE", "SILENT", "MALFORMED"]
+OK_FORMS = [b'OK "ready"\r\n', b'OK (WARNINGS) {14}\r\nOK "confusing"\r\n', b"OK {9}\r\nOK NO BYE\r\n"]
 AUTHMECHS = [None, "PLAIN", "LOGIN", "OAUTHBEARER", "X-UNKNOWN", "plain", "DIGEST-MD5"]
 SCRIPT_VERBS = [b"HAVESPACE", b"LISTSCRIPTS", b"GETSCRIPT", b"PUTSCRIPT", b"CHECKSCRIPT", b"DELETESCRIPT", b"RENAMESCRIPT",
                 b"SETACTIVE"]
@@ -114,7 +115,7 @@ class WSock(FakeSock):
     def greet(self):
         b = BEHAV[self.world.lazy.next(5, "greet")]
         if b == "OK":
-            self.inbox.append(self.caps() + b'OK "ready"\r\n')
+            self.inbox.append(self.caps() + OK_FORMS[self.world.lazy.next(len(OK_FORMS), "okform")])
         elif b == "NO":
             self.inbox.append(b'NO "go away"\r\n')
         elif b == "BYE":
@@ -132,7 +133,7 @@ class WSock(FakeSock):
     def greet_after_tls(self):
         b = BEHAV[self.world.lazy.next(5, "greet2")]
         if b == "OK":
-            self.inbox.append(self.caps() + b'OK "tls ready"\r\n')
+            self.inbox.append(self.caps() + OK_FORMS[self.world.lazy.next(len(OK_FORMS), "okform")])
         elif b == "NO":
             self.inbox.append(b'NO "x"\r\n')
         elif b == "BYE":
@@ -209,7 +210,8 @@ class StubSSLModule:
 
 
 CREDS = [("user", "password", ""), ("usér", "päss wörd", "admin"), ("a,b=c", 'q"uo\\te', "z"), ("u", "", ""),
-         ("user@example.org", "tok=en,x", "auth z"), ("€", "\U0001f511", "é")]
+         ("user@example.org", "tok=en,x", "auth z"), ("€", "\U0001f511", "é"),
+         ("same", "pw", "same"), ("l" * 45, "p" * 70, "z" * 20)]
 NCREDS = len(CREDS)
 
 
